@@ -102,17 +102,17 @@ type Obs struct {
 
 // hookState is the per-invocation state behind the simhook function variables.
 type hookState struct {
-	mu       sync.Mutex
-	f        Faults
-	points   []PointRec
-	nPoints  int
-	nWrites  int
-	counts   map[string]*atomic.Int64
-	vetoed   []string
-	removed  []string
-	fired    []string
-	protect  []string
-	sandbox  string
+	mu      sync.Mutex
+	f       Faults
+	points  []PointRec
+	nPoints int
+	nWrites int
+	counts  map[string]*atomic.Int64
+	vetoed  []string
+	removed []string
+	fired   []string
+	protect []string
+	sandbox string
 }
 
 func (h *hookState) point(site, detail string) {
